@@ -182,6 +182,26 @@ def discharge(obligations, timeout_s=20, jobs=None, seed=0, keep_smt2=3, cvc5_al
                         results[i] = r
                     except Exception:
                         pass
+    # z3 `unknown` by timeout is often a matter of the random seed (nlsat / quantifier-free nonlinear queries that
+    # take 0.2 s with one seed and tens of seconds with another, more so on a busy machine): before an obligation is
+    # reported unknown it is retried with other seeds and a doubled budget.  A retry can only turn unknown into a
+    # definite answer of the same solver on the same query; it never overrides sat/unsat.
+    for attempt, (ds, mult) in enumerate(((101, 2), (7919, 3))):
+        slow = [i for i, r in enumerate(results) if r["result"] == "unknown" and obligations[i].view != "custom"
+                and any(w in str(r.get("reason", "")) for w in ("timeout", "canceled", "hard timeout", "resource"))]
+        if not slow:
+            break
+        with ctx.Pool(min(jobs, len(slow))) as pool:
+            asyncs = [(i, pool.apply_async(_solve, ((i, int(timeout_s * 1000 * mult), seed + ds),))) for i in slow]
+            for i, a in asyncs:
+                try:
+                    _, r = a.get(timeout=timeout_s * mult * 3 + 30)
+                    if r["result"] in ("sat", "unsat"):
+                        r["retried_with_seed"] = seed + ds
+                        r["first_attempt"] = {"result": "unknown", "reason": str(results[i].get("reason"))[:80], "time_s": results[i].get("time_s")}
+                        results[i] = r
+                except Exception:
+                    pass
     # cvc5: take z3's unknowns (and everything in the thorough tier)
     kept = 0
     texts = [r.pop("smt2", None) for r in results]
